@@ -86,7 +86,7 @@ UNNAMED_TYPE_PARTS = [("list", None, T.leaf("Value", "is_instance", tuple), None
 
 
 def units(tier):
-    return gen.chunks(len(_paths(tier)), 6) + [["NOISE"], ["CONF", 0], ["CONF", 1]] + [["CALL", lo, hi] for lo, hi in gen.chunks(len(gen.callable_parts()), 12)]
+    return gen.chunks(len(_paths(tier)), 6) + [["NOISE"], ["CONF", 0], ["CONF", 1], ["MOD"]] + [["CALL", lo, hi] for lo, hi in gen.chunks(len(gen.callable_parts()), 12)]
 
 
 def run_unit(unit, tier):
@@ -103,6 +103,19 @@ def run_unit(unit, tier):
         for pi, p in enumerate(ps):
             for how in ("api", "spec"):
                 check_case(res, p, how, docs, key=("NOISE", pi, how), noise=True)
+        return res
+    if unit[0] == "MOD":
+        # the path spec with its datum / multiplicity modifiers (DataPath.to_spec -> JSON -> DataPath.from_spec)
+        bases = [(), (("prim", "a"),), (("prim", "a"), ("prim", 1)), (gen.BARE[0],), (("prim", "a"), gen.BARE[1]), (gen.MAPS[5], gen.BARE[2]),
+                 (gen.LISTS[4],), (LABELLED[0], gen.MOLS[6]), (("prim", 1.0), gen.BARE[0])]
+        docs = family("quick")
+        i = 0
+        for parts in bases:
+            for datum in T.DATUMS:
+                for multi in T.MULTIS:
+                    for order in (("dm", "md") if datum and multi else ("dm",)):
+                        check_modified(res, T.path(parts, datum, multi, order), docs, key=("MOD", i))
+                        i += 1
         return res
     if unit[0] == "CONF":
         # paths that differ only in the type of an equal-valued primitive part (1 / 1.0 / True / '1', 0 / 0.0 / False), all
@@ -140,11 +153,69 @@ def run_unit(unit, tier):
 def replay(case):
     res = Result()
     docs = [case["doc"]] if "doc" in case else family("quick")
+    if case.get("how") == "modified":
+        check_modified(res, case["path"], docs, key=("replay",))
+        return list(res.violations.values())
     if case.get("noise"):
         from mc.noise import make_noise
         make_noise()
     check_case(res, case["path"], case["how"], docs, key=("replay",), noise=bool(case.get("noise")))
     return list(res.violations.values())
+
+
+def _get(p, d):
+    try:
+        return ("ok", p.get_data(d))
+    except BaseException as e:
+        return ("raises", type(e).__name__)
+
+
+def check_modified(res, pt, docs, key):
+    res.count("evaluations")
+    res.state(*key)
+    case = {"path": pt, "how": "modified"}
+    try:
+        p = T.build_path(pt)
+    except BaseException:
+        res.count("modifier_refused_on_this_path")     # (multiplicity modifiers on concrete paths: C04)
+        return
+    res.count("transitions", 2)
+    try:
+        spec = p.to_spec()
+        text = json.dumps(spec)
+    except (TypeError, ValueError) as e:
+        if isinstance(e, TypeError) and "JSON" in str(e):
+            res.violation("not-json:to_spec", "%s.to_spec() = %r is not JSON-compatible" % (T.show(pt), spec), case, observed=repr(spec))
+        else:
+            res.count("refused")
+        return
+    except BaseException:
+        res.count("refused")
+        return
+    try:
+        q = DataPath.from_spec(json.loads(text))
+    except BaseException as e:
+        res.violation("rebuild:to_spec:%s" % type(e).__name__, "DataPath.from_spec(%s) raised %r" % (text, e), case, observed=repr(e),
+                      expected=T.show(pt))
+        return
+    if not (q == p and p == q):
+        res.violation("unequal:to_spec", "%s serialises to %s which rebuilds to the unequal %r" % (T.show(pt), text, q), case,
+                      observed=repr(q), expected=repr(p))
+        return
+    for doc in docs:
+        res.count("transitions", 2)
+        a, b = _get(p, fresh(doc)), _get(q, fresh(doc))
+        if vsnap_(a) != vsnap_(b):
+            res.violation("selects-differently:to_spec", "%s serialises to %s, which rebuilds to a path returning something else "
+                          "from %r" % (T.show(pt), text, doc), dict(case, doc=doc), observed=b, expected=a)
+            return
+    res.count("validated")
+    res.count("nontrivial")
+
+
+def vsnap_(x):
+    from mc.snapshot import vsnap
+    return vsnap(x)
 
 
 def as_pairs(out, concrete):
